@@ -133,10 +133,15 @@ def run(ctx):
     # a wallet built from an extended key takes its network (wallet flag AND node flag) from the version prefix
     from .C07 import check_dispatch
     check_dispatch(ctx, 'C16.IMPORT')
+    check_cli_network(ctx, 'C16.CLI')
+
+
+def check_cli_network(ctx, rule):
     # the command line: a wallet made from an extended key takes its network from the key, the other commands from --testnet
     from .C20 import main_paths, attr, CTORS
+    p = ctx.p
     fmain = p.get_function('__main__.main')
-    with ctx.obligation('C16.CLI', '__main__.main network wiring', None, fmain.where) as ob:
+    with ctx.obligation(rule, '__main__.main network wiring', None, fmain.where) as ob:
         n = 0
         for rec in main_paths(p):
             if rec['kind'] != 'sink':
